@@ -24,7 +24,9 @@ RULE = ("programs: chains y <- op_i(y) with op_i drawn from {+c, *c, tanh (<=12 
 ASSUMPTIONS = ["'any size that fits in memory' is explored up to 5e4 sequential ops; beyond that only the linear "
                "call-count argument extrapolates",
                "cost is asserted on the deterministic number of Python source lines executed (sys.monitoring), never on "
-               "wall time (quadratic behaviour inside a single C call would be invisible)"]
+               "wall time; quadratic behaviour inside a single C call is invisible to it and is covered, in the thorough tier "
+               "only, by a CPU-time-per-operation ratio between two sizes (minimum of three runs, threshold 3.5 against "
+               "1.1-1.3 measured on the unchanged tree)"]
 
 DEPTHS_Q = [10, 100, 1000, 1000, 3000, 10000]
 DEPTHS_T = [10, 100, 1000, 3000, 10000, 20000, 50000]
@@ -229,6 +231,57 @@ def check_cost(c, rec):
     rec.tag(f"ratio~{round(b / a, 1)}")
 
 
+# ---- cost inside single C calls (list.insert(0, ...), repeated concatenation): CPU time per recorded operation ------
+@st.composite
+def cpu_cost_cases(draw):
+    return {"n1": 20000, "n2": draw(st.sampled_from([320000, 400000])), "kind": draw(st.sampled_from(["chain", "chain", "diamonds"]))}
+
+
+def check_cpu_cost(c, rec):
+    """Line counts cannot see work done inside one C call.  Here the process CPU time of backward per recorded operation
+    is compared between a graph of n1 and one of n2 = 16-20 x n1 operations; linear cost keeps the ratio near 1 (1.1-1.3
+    measured), quadratic cost makes it grow with n2/n1 (6.9 measured for an insert-at-front ordering).  The verdict
+    uses the MINIMUM ratio of three repetitions and a threshold of 3.5; garbage collection is off while timing."""
+    import time as _time
+    rec.nontrivial(True)
+    rec.tag(c["kind"])
+
+    def per_op(n):
+        x = Tensor(np.array([0.5, -0.25]), requires_grad=True)
+        y = x
+        if c["kind"] == "chain":
+            for _ in range(n // 2):
+                y = y * 1.0001 + 0.0001
+        else:
+            for _ in range(n // 3):
+                y = y * 0.5 + y * 0.5
+        g = Tensor(np.ones(2))
+        gc.collect()
+        gc.disable()
+        try:
+            t0 = _time.process_time()
+            y.backward(g)
+            dt_ = _time.process_time() - t0
+        finally:
+            gc.enable()
+        del y, x
+        gc.collect()
+        return dt_ / n
+
+    ratios = []
+    for _ in range(3):
+        a = per_op(c["n1"])
+        b = per_op(c["n2"])
+        ratios.append(b / max(a, 1e-9))
+        if ratios[-1] <= 3.5:
+            break                          # one clean measurement settles it
+    rec.tag(f"ratio~{round(min(ratios), 1)}")
+    if min(ratios) > 3.5:
+        raise Violation("superlinear", f"CPU time of backward per recorded operation grows with the size of the graph: "
+                                       f"x{min(ratios):.1f} (minimum of {len(ratios)} runs) between n={c['n1']} and n={c['n2']} ({c['kind']})",
+                        region="cpu_time")
+
+
 # ---- untracked loops keep no history ---------------------------------------------------------------
 @st.composite
 def loop_cases(draw, lengths):
@@ -304,6 +357,7 @@ def subchecks():
     return [SubCheck("graphs", check_graph, lambda: graph_cases(DEPTHS_Q), quick=14, thorough=0, shards_quick=8, shards_thorough=1),
             SubCheck("graphs_deep", check_graph, lambda: graph_cases(DEPTHS_T), quick=0, thorough=100, shards_quick=1, shards_thorough=16),
             SubCheck("cost", check_cost, None, enum=enum_cost, exhaustive=True, shards_quick=8, shards_thorough=16),
+            SubCheck("cost_cpu_time", check_cpu_cost, cpu_cost_cases, quick=0, thorough=2, shards_quick=1, shards_thorough=1),
             SubCheck("untracked_loops", check_loop, lambda: loop_cases([10, 100, 1000, 3000]), quick=25, thorough=0, shards_quick=4),
             SubCheck("untracked_loops_long", check_loop, lambda: loop_cases([1000, 3000, 10000]), quick=0, thorough=100,
                      shards_quick=1, shards_thorough=8)]
